@@ -5,9 +5,9 @@
      (a) no binder (parameter, `let`, `for` variable) of any function or shadow block is spelled like a top-level
          constant -- so whatever a function reads as a free name cannot be captured by a local of one of its callers
          (the evaluator resolves names on ONE stack shared by all active calls: dynamic scoping);
-     (c) string literals contain no escape sequence and no NUL (the evaluator prints the source spelling);
-     (d) the first element of every array literal contains no call (the evaluator evaluates it twice: finding
-         c03:array-literal-first-element-twice).
+     (c) string literals contain no escape sequence and no NUL (the evaluator prints the source spelling).
+   The former clause (d) (first element of an array literal call-free) is gone with fix 38fa340: the evaluator no longer
+   evaluates that element twice.
    Since fix 9481a65 (blocks pop their symbols) nothing is asked about names re-used inside one function: shadowing a
    live name in an inner block, re-using a name after a block, duplicate parameters are all inside the theorem.
    Definitions only. *)
@@ -28,19 +28,6 @@ Fixpoint binders_ok (gn : list ident) (s : stmt) : bool :=
   | _ => true
   end.
 
-(* no call anywhere inside: evaluating such an expression prints nothing, asserts nothing and leaves the stack alone *)
-Fixpoint expr_nocall (e : expr) : bool :=
-  match e with
-  | ENum _ | EBool _ | EVar _ | EStr _ => true
-  | EUn _ a => expr_nocall a
-  | EBin _ a b => expr_nocall a && expr_nocall b
-  | ECall _ _ => false
-  | ECond c a b => expr_nocall c && expr_nocall a && expr_nocall b
-  | EArr es => (fix go (l : list expr) : bool := match l with [] => true | a :: r => expr_nocall a && go r end) es
-  | EAt a i => expr_nocall a && expr_nocall i
-  | ELen a => expr_nocall a
-  end.
-
 Fixpoint expr_plain (e : expr) : bool :=
   match e with
   | ENum _ | EBool _ | EVar _ => true
@@ -49,9 +36,7 @@ Fixpoint expr_plain (e : expr) : bool :=
   | EBin _ a b => expr_plain a && expr_plain b
   | ECall _ args => (fix go (l : list expr) : bool := match l with [] => true | a :: r => expr_plain a && go r end) args
   | ECond c a b => expr_plain c && expr_plain a && expr_plain b
-  | EArr es =>
-      match es with [] => true | a :: _ => expr_nocall a end &&
-      (fix go (l : list expr) : bool := match l with [] => true | a :: r => expr_plain a && go r end) es
+  | EArr es => (fix go (l : list expr) : bool := match l with [] => true | a :: r => expr_plain a && go r end) es
   | EAt a i => expr_plain a && expr_plain i
   | ELen a => expr_plain a
   end.
